@@ -323,8 +323,12 @@ def make_point(rng, MODE="gregorian"):
     elif rng.random() < 0.15:
         kw["num_expanded_year_digits"] = rng.choice((1, 2, 3))
     tk = gen.time_kwargs(rng, form)
+    if form == "24":
+        # (the T24,0 / T24:00,0 spellings are decimal forms: a format down
+        # to whole seconds is not a qualifying format for them, R5)
+        tk = {k: v for k, v in tk.items() if not k.endswith("_decimal")}
     for k in list(tk):
-        if k.endswith("_decimal"):
+        if k.endswith("_decimal") and tk.get("hour_of_day") != 24:
             d = rng.randint(1, 6)
             tk[k] = rng.choice((0.5, 0.999999, 0.000001, 0.1, 0.25,
                                 rng.randrange(10 ** d) / 10 ** d))
